@@ -526,6 +526,9 @@ theorem skipCount_asUninit (ms : List Buf) :
 
 /-! ### the fill law through `VectoredSlice` (`slice_mut(begin)` of a packed buffer) -/
 
+theorem defaultSetLen_zero (l : List Buf) : defaultSetLen l 0 = .ok l := by
+  cases l <;> simp [defaultSetLen]
+
 def AllFull : List Buf → Prop
   | [] => True
   | m :: rest => (∃ o c, GoodM m o c c) ∧ AllFull rest
@@ -559,9 +562,6 @@ theorem setLen_full {m : Buf} {o c : Nat} (h : GoodM m o c c) : m.setLen c = .ok
   simp only
   have e : ({ m.getRoot with len := o + c } : Root) = m.getRoot := by
     rw [ht]
-    generalize m.getRoot = r
-    cases r
-    rfl
   rw [e, Buf.setRoot_getRoot]
 
 /-- `default_set_len` walks over full members without changing them -/
@@ -782,10 +782,27 @@ theorem VBuf.fill_slice_packed (pre : List Buf) (m : Buf) (rest : List Buf) (o l
         · omega
         · have := h.lenSum; omega)]
 
-/-! ### `VectoredBufIter`: the first position -/
+/-- `slice_mut(capSum pre + off)` with `off` strictly inside `m` skips exactly the members `pre` -/
+theorem skipCount_full_prefix (pre : List Buf) (m : Buf) (rest : List Buf) (o li c off k idx : Nat)
+    (hpre : AllFull pre) (hm : GoodM m o li c) (hoff : off < c) :
+    skipCount (indexFrom k ((pre ++ m :: rest).map Buf.asUninit)) (capSum pre + off) idx =
+      .ok (idx + pre.length, off) := by
+  induction pre generalizing k idx with
+  | nil =>
+    simp only [List.nil_append, List.map_cons, indexFrom, skipCount, hm.2.2.2.1, capSum, Nat.zero_add,
+      List.length_nil, Nat.add_zero]
+    rw [if_pos hoff]
+  | cons a t ih =>
+    obtain ⟨⟨oa, ca, ha⟩, ht⟩ := hpre
+    simp only [List.cons_append, List.map_cons, indexFrom, skipCount, ha.2.2.2.1, capSum, memberCap]
+    rw [if_neg (by omega)]
+    have : ca + capSum t + off - ca = capSum t + off := by omega
+    rw [this, ih (k + 1) (idx + 1) ht]
+    simp only [List.length_cons]
+    congr 2
+    omega
 
-theorem defaultSetLen_zero (l : List Buf) : defaultSetLen l 0 = .ok l := by
-  cases l <;> simp [defaultSetLen]
+/-! ### `VectoredBufIter`: the first position -/
 
 /-- a fill through a freshly created `owned_iter()` (position 0, nothing recorded yet) of a `default_set_len`
 container is the single-buffer fill of member 0; no other member is touched, whatever their shape -/
